@@ -9,7 +9,10 @@ Types == <<"title", "body", "ctrTitle", "subTitle", "dt", "sldNum", "ftr", "hdr"
 Szs == <<"full", "half", "quarter">>
 \* car: the element that CARRIES the p:ph in the layout - "sp" (an empty placeholder), "pic" / "gf" (a placeholder that was filled in
 \* Slide Master view: a p:pic or a p:graphicFrame with a p:ph; a graphic frame always has its own p:xfrm).  The slide's clone is a p:sp.
-PhC(t, i, o, z, g, car) == [type |-> Types[t], idx |-> i, orient |-> o, sz |-> Szs[z], own |-> g, car |-> car]
+\* nm: how the layout names the placeholder - "u" a name of its own, "same" the name every "same" placeholder of the layout shares (shape
+\* names need not be unique in a document; the names on the NEW slide must be), "amp" a name with markup characters
+PhN(t, i, o, z, g, car, nm) == [type |-> Types[t], idx |-> i, orient |-> o, sz |-> Szs[z], own |-> g, car |-> car, nm |-> nm]
+PhC(t, i, o, z, g, car) == PhN(t, i, o, z, g, car, "u")
 Ph(t, i, o, z, g) == PhC(t, i, o, z, g, "sp")
 Filled == {PhC(t, i, "horz", 1, g, "pic") : t \in {9, 12, 16}, i \in {1, 13}, g \in BOOLEAN}
           \cup {PhC(t, i, "horz", 1, TRUE, "gf") : t \in {9, 10, 11, 13}, i \in {1, 13}}
@@ -18,6 +21,8 @@ Variants == IF MODE = "single"
             THEN {Ph(t, i, o, z, g) : t \in DOMAIN Types, i \in {0, 1, 13}, o \in {"horz", "vert"}, z \in DOMAIN Szs, g \in BOOLEAN} \cup Filled
             ELSE {Ph(t, i, "horz", 1, g) : t \in {1, 2, 5, 9, 16}, i \in {0, 1}, g \in BOOLEAN} \cup {Ph(2, 1, "vert", 2, FALSE)}
                  \cup {PhC(16, 1, "horz", 1, TRUE, "pic"), PhC(11, 13, "horz", 1, TRUE, "gf")}
+                 \cup {PhN(1, 0, "horz", 1, TRUE, "sp", "same"), PhN(2, 1, "horz", 1, TRUE, "sp", "same"), PhN(2, 13, "horz", 1, FALSE, "sp", "same"),
+                       PhN(9, 1, "horz", 1, TRUE, "sp", "amp")}
 Init == pop = <<>> /\ hist = <<>>
 AddPh == Len(pop) < NPH /\ hist = <<>> /\ \E v \in Variants : pop' = Append(pop, v) /\ UNCHANGED hist
 Act(op, k, j) == [op |-> op, k |-> k, j |-> j]
